@@ -1,5 +1,6 @@
 import PallasVerif.Model.Reassembly
 import PallasVerif.Proofs.Keepalive
+import PallasVerif.Proofs.Codec
 /-!
 # C21 — Message reassembly is independent of segment boundaries
 
@@ -24,7 +25,12 @@ one-byte chunks included —, no bound on lengths):
 * `good_keepalive` — the keep-alive codec of both stacks (modelled over minicbor's `array()` / `u16()`
   primitives, tied by the `kdec` ops of the stream) satisfies `Good`; `reassembly_network1_keepalive`,
   `reassembly_network2_keepalive` are the hypothesis-free instances;
-* `good_lenCodec` — a second, synthetic length-prefixed codec satisfies `Good`.
+* `good_blockfetch` — likewise the block-fetch codec of both stacks (`array()`, `u16()`, `u64()`, `tag()`,
+  `bytes()`; `Point`s; block bodies of any length `< 2^64`, i.e. messages spanning many segments), tied by
+  the `bfdec`/`bfenc` ops; `reassembly_network1_blockfetch`, `reassembly_network2_blockfetch`;
+* `good_chainsync` — likewise the node-to-node chain-sync codec (header content with Byron prefix, tips,
+  points, the point list of `FindIntersect`), tied by the `csdec`/`csenc` ops;
+* `good_lenCodec` — a synthetic length-prefixed codec satisfies `Good`.
 
 What is **not** proved here: that the *other* pallas message decoders satisfy `Good` (that is C22's
 schema layer); the correspondence stream replays real protocol messages of both stacks through the
@@ -33,15 +39,16 @@ real receive paths at every split and through this model with a "one well-formed
 namespace PallasVerif.Props.C21
 open PallasVerif.Reassembly
 
-variable {M : Type}
+variable {M : Type} {D : M → Prop}
 
-/-- what reassembly needs from a codec -/
-structure Good (dec : Decoder M) (enc : M → Bytes) : Prop where
+/-- what reassembly needs from a codec, on the messages satisfying `D` (size limits of the wire
+    format: `u64` fields, lengths below `2^64`; `fun _ => True` when there are none) -/
+structure Good (D : M → Prop) (dec : Decoder M) (enc : M → Bytes) : Prop where
   /-- round trip, consuming exactly the encoding, independent of what follows (no look-ahead) -/
-  rt : ∀ m r, dec (enc m ++ r) = .ok m (enc m).length
+  rt : ∀ m, D m → ∀ r, dec (enc m ++ r) = .ok m (enc m).length
   /-- a proper prefix of an encoding is an end-of-input error -/
-  pfx : ∀ m p, p <+: enc m → p ≠ enc m → dec p = .eoi
-  nonempty : ∀ m, enc m ≠ []
+  pfx : ∀ m, D m → ∀ p, p <+: enc m → p ≠ enc m → dec p = .eoi
+  nonempty : ∀ m, D m → enc m ≠ []
   empty : dec [] = .eoi
 
 def encAll (enc : M → Bytes) (msgs : List M) : Bytes := (msgs.map enc).flatten
@@ -69,16 +76,17 @@ theorem drop_left_len (e r : Bytes) : (e ++ r).drop e.length = r := List.drop_le
 
 /-! ## network1 -/
 
-theorem tryDecode_full {dec : Decoder M} {enc : M → Bytes} (h : Good dec enc) (m : M) (r : Bytes) :
-    tryDecode dec (enc m ++ r) = .msg m r := by
-  simp [tryDecode, h.rt m r, drop_left_len]
+theorem tryDecode_full {dec : Decoder M} {enc : M → Bytes} (h : Good D dec enc) (m : M) (hm : D m)
+    (r : Bytes) : tryDecode dec (enc m ++ r) = .msg m r := by
+  simp [tryDecode, h.rt m hm r, drop_left_len]
 
-theorem tryDecode_short {dec : Decoder M} {enc : M → Bytes} (h : Good dec enc) (m : M) (p : Bytes)
-    (hp : p <+: enc m) (hne : p ≠ enc m) : tryDecode dec p = .needMore := by
-  simp [tryDecode, h.pfx m p hp hne]
+theorem tryDecode_short {dec : Decoder M} {enc : M → Bytes} (h : Good D dec enc) (m : M) (hm : D m)
+    (p : Bytes) (hp : p <+: enc m) (hne : p ≠ enc m) : tryDecode dec p = .needMore := by
+  simp [tryDecode, h.pfx m hm p hp hne]
 
 /-- the loop of `recv_full_msg` finds the next message whatever the chunk boundaries -/
-theorem recvLoop_spec {dec : Decoder M} {enc : M → Bytes} (h : Good dec enc) (m : M) (R : Bytes) :
+theorem recvLoop_spec {dec : Decoder M} {enc : M → Bytes} (h : Good D dec enc) (m : M) (hm : D m)
+    (R : Bytes) :
     ∀ (chunks : List Bytes) (temp : Bytes), temp ++ chunks.flatten = enc m ++ R →
       temp.length < (enc m).length →
       ∃ t' c', recvLoop dec temp chunks = .msg m t' c' ∧ t' ++ c'.flatten = R := by
@@ -97,59 +105,60 @@ theorem recvLoop_spec {dec : Decoder M} {enc : M → Bytes} (h : Good dec enc) (
     · obtain ⟨r1, h1, h2⟩ := split_long heq' hl
       refine ⟨r1, cs, ?_, h2⟩
       simp only [recvLoop]
-      rw [h1, tryDecode_full h]
+      rw [h1, tryDecode_full h m hm]
     · have hl' : (temp ++ chunk).length < (enc m).length := by omega
       obtain ⟨hp, hne⟩ := split_short heq' hl'
       simp only [recvLoop]
-      rw [tryDecode_short h m _ hp hne]
+      rw [tryDecode_short h m hm _ hp hne]
       exact ih (temp ++ chunk) heq' hl'
 
 /-- one call of `recv_full_msg` -/
-theorem recvFullMsg_spec {dec : Decoder M} {enc : M → Bytes} (h : Good dec enc) (m : M) (R : Bytes)
-    (temp : Bytes) (chunks : List Bytes) (heq : temp ++ chunks.flatten = enc m ++ R) :
+theorem recvFullMsg_spec {dec : Decoder M} {enc : M → Bytes} (h : Good D dec enc) (m : M) (hm : D m)
+    (R : Bytes) (temp : Bytes) (chunks : List Bytes) (heq : temp ++ chunks.flatten = enc m ++ R) :
     ∃ t' c', recvFullMsg dec temp chunks = .msg m t' c' ∧ t' ++ c'.flatten = R := by
   unfold recvFullMsg
   by_cases he : temp.isEmpty = true
   · have ht : temp = [] := List.isEmpty_iff.1 he
     simp only [he, if_true]
-    apply recvLoop_spec h m R chunks temp heq
+    apply recvLoop_spec h m hm R chunks temp heq
     rw [ht]
-    exact List.length_pos_iff.2 (h.nonempty m)
+    exact List.length_pos_iff.2 (h.nonempty m hm)
   · simp only [he]
     by_cases hl : (enc m).length ≤ temp.length
     · obtain ⟨r1, h1, h2⟩ := split_long heq hl
       refine ⟨r1, chunks, ?_, h2⟩
-      rw [h1, tryDecode_full h]; simp
+      rw [h1, tryDecode_full h m hm]; simp
     · have hl' : temp.length < (enc m).length := by omega
       obtain ⟨hp, hne⟩ := split_short heq hl'
-      rw [tryDecode_short h m _ hp hne]
-      simpa using recvLoop_spec h m R chunks temp heq hl'
+      rw [tryDecode_short h m hm _ hp hne]
+      simpa using recvLoop_spec h m hm R chunks temp heq hl'
 
-theorem recvN_spec {dec : Decoder M} {enc : M → Bytes} (h : Good dec enc) :
-    ∀ (msgs : List M) (temp : Bytes) (chunks : List Bytes),
+theorem recvN_spec {dec : Decoder M} {enc : M → Bytes} (h : Good D dec enc) :
+    ∀ (msgs : List M), (∀ m ∈ msgs, D m) → ∀ (temp : Bytes) (chunks : List Bytes),
       temp ++ chunks.flatten = encAll enc msgs →
       ∃ t c, recvN dec msgs.length temp chunks = some (msgs, t, c) ∧ t ++ c.flatten = [] := by
   intro msgs
   induction msgs with
   | nil =>
-    intro temp chunks heq
+    intro _ temp chunks heq
     exact ⟨temp, chunks, rfl, by simpa [encAll] using heq⟩
   | cons m ms ih =>
-    intro temp chunks heq
+    intro hD temp chunks heq
     have heq' : temp ++ chunks.flatten = enc m ++ encAll enc ms := by
       simpa [encAll] using heq
-    obtain ⟨t', c', h1, h2⟩ := recvFullMsg_spec h m _ temp chunks heq'
-    obtain ⟨t, c, h3, h4⟩ := ih t' c' h2
+    obtain ⟨t', c', h1, h2⟩ :=
+      recvFullMsg_spec h m (hD m (List.mem_cons_self ..)) _ temp chunks heq'
+    obtain ⟨t, c, h3, h4⟩ := ih (fun x hx => hD x (List.mem_cons_of_mem _ hx)) t' c' h2
     refine ⟨t, c, ?_, h4⟩
     simp only [List.length_cons, recvN, h1, h3]
 
 /-- **network1.** For any messages and any split of their concatenated encodings into chunks,
     `msgs.length` calls of `recv_full_msg` return exactly the messages, in order; afterwards `temp` is
     empty and every chunk still queued is empty (no left-over bytes). -/
-theorem reassembly_network1 {dec : Decoder M} {enc : M → Bytes} (h : Good dec enc) (msgs : List M)
-    (splits : List Bytes) (hs : splits.flatten = encAll enc msgs) :
+theorem reassembly_network1 {dec : Decoder M} {enc : M → Bytes} (h : Good D dec enc) (msgs : List M)
+    (hD : ∀ m ∈ msgs, D m) (splits : List Bytes) (hs : splits.flatten = encAll enc msgs) :
     ∃ c, recvN dec msgs.length [] splits = some (msgs, [], c) ∧ c.flatten = [] := by
-  obtain ⟨t, c, h1, h2⟩ := recvN_spec h msgs [] splits (by simpa using hs)
+  obtain ⟨t, c, h1, h2⟩ := recvN_spec h msgs hD [] splits (by simpa using hs)
   have ht : t = [] := (List.append_eq_nil_iff.1 h2).1
   have hc : c.flatten = [] := (List.append_eq_nil_iff.1 h2).2
   subst ht
@@ -157,18 +166,18 @@ theorem reassembly_network1 {dec : Decoder M} {enc : M → Bytes} (h : Good dec 
 
 /-! ## network2 -/
 
-theorem tryDecode2_full {dec : Decoder M} {enc : M → Bytes} (h : Good dec enc) (m : M) (r : Bytes) :
-    tryDecode2 dec (enc m ++ r) = some (m, r) := by
-  simp [tryDecode2, h.rt m r, drop_left_len]
+theorem tryDecode2_full {dec : Decoder M} {enc : M → Bytes} (h : Good D dec enc) (m : M) (hm : D m)
+    (r : Bytes) : tryDecode2 dec (enc m ++ r) = some (m, r) := by
+  simp [tryDecode2, h.rt m hm r, drop_left_len]
 
-theorem tryDecode2_short {dec : Decoder M} {enc : M → Bytes} (h : Good dec enc) (m : M) (p : Bytes)
-    (hp : p <+: enc m) (hne : p ≠ enc m) : tryDecode2 dec p = none := by
-  simp [tryDecode2, h.pfx m p hp hne]
+theorem tryDecode2_short {dec : Decoder M} {enc : M → Bytes} (h : Good D dec enc) (m : M) (hm : D m)
+    (p : Bytes) (hp : p <+: enc m) (hne : p ≠ enc m) : tryDecode2 dec p = none := by
+  simp [tryDecode2, h.pfx m hm p hp hne]
 
 /-- the `while let Some(..) = from_payload(..)` loop delivers every complete message of the payload
     and leaves exactly the incomplete tail -/
-theorem drain_spec {dec : Decoder M} {enc : M → Bytes} (h : Good dec enc) :
-    ∀ (ms : List M) (payload future : Bytes) (fuel : Nat),
+theorem drain_spec {dec : Decoder M} {enc : M → Bytes} (h : Good D dec enc) :
+    ∀ (ms : List M), (∀ m ∈ ms, D m) → ∀ (payload future : Bytes) (fuel : Nat),
       payload ++ future = encAll enc ms → payload.length < fuel →
       ∃ ms1 ms2, ms = ms1 ++ ms2 ∧ (drain dec fuel payload).1 = ms1 ∧
         (drain dec fuel payload).2 ++ future = encAll enc ms2 ∧
@@ -176,7 +185,7 @@ theorem drain_spec {dec : Decoder M} {enc : M → Bytes} (h : Good dec enc) :
   intro ms
   induction ms with
   | nil =>
-    intro payload future fuel heq hf
+    intro _ payload future fuel heq hf
     have hp : payload = [] := by
       have : payload ++ future = [] := by simpa [encAll] using heq
       exact (List.append_eq_nil_iff.1 this).1
@@ -188,27 +197,29 @@ theorem drain_spec {dec : Decoder M} {enc : M → Bytes} (h : Good dec enc) :
       · simp [drain, tryDecode2, h.empty]
       · simp only [drain, tryDecode2, h.empty]; simpa using heq
   | cons m ms ih =>
-    intro payload future fuel heq hf
+    intro hD payload future fuel heq hf
+    have hm : D m := hD m (List.mem_cons_self ..)
+    have hD' : ∀ x ∈ ms, D x := fun x hx => hD x (List.mem_cons_of_mem _ hx)
     have heq' : payload ++ future = enc m ++ encAll enc ms := by simpa [encAll] using heq
     cases fuel with
     | zero => omega
     | succ f =>
       by_cases hl : (enc m).length ≤ payload.length
       · obtain ⟨r1, h1, h2⟩ := split_long heq' hl
-        have hpos : 0 < (enc m).length := List.length_pos_iff.2 (h.nonempty m)
+        have hpos : 0 < (enc m).length := List.length_pos_iff.2 (h.nonempty m hm)
         have hf' : r1.length < f := by
           have := congrArg List.length h1; simp only [List.length_append] at this; omega
-        obtain ⟨ms1, ms2, e1, e2, e3, e4⟩ := ih r1 future f h2 hf'
+        obtain ⟨ms1, ms2, e1, e2, e3, e4⟩ := ih hD' r1 future f h2 hf'
         refine ⟨m :: ms1, ms2, by simp [e1], ?_, ?_, ?_⟩
-        · simp only [drain]; rw [h1, tryDecode2_full h]; simp [e2]
-        · simp only [drain]; rw [h1, tryDecode2_full h]; exact e3
-        · simp only [drain]; rw [h1, tryDecode2_full h]; exact e4
+        · simp only [drain]; rw [h1, tryDecode2_full h m hm]; simp [e2]
+        · simp only [drain]; rw [h1, tryDecode2_full h m hm]; exact e3
+        · simp only [drain]; rw [h1, tryDecode2_full h m hm]; exact e4
       · have hl' : payload.length < (enc m).length := by omega
         obtain ⟨hp, hne⟩ := split_short heq' hl'
         refine ⟨[], m :: ms, rfl, ?_, ?_, Or.inr ⟨m, ms, rfl, ?_⟩⟩
-        · simp only [drain]; rw [tryDecode2_short h m _ hp hne]
-        · simp only [drain]; rw [tryDecode2_short h m _ hp hne]; exact heq
-        · simp only [drain]; rw [tryDecode2_short h m _ hp hne]; exact hl'
+        · simp only [drain]; rw [tryDecode2_short h m hm _ hp hne]
+        · simp only [drain]; rw [tryDecode2_short h m hm _ hp hne]; exact heq
+        · simp only [drain]; rw [tryDecode2_short h m hm _ hp hne]; exact hl'
 
 /-- channel key of a segment: `raw_channel & !PROTOCOL_SERVER` -/
 def keyOf (seg : UInt16 × Bytes) : UInt16 := seg.1 &&& ~~~PROTOCOL_SERVER
@@ -283,14 +294,14 @@ def Drained (enc : M → Bytes) (buffered : Bytes) (ms : List M) : Prop :=
   ms = [] ∨ ∃ m ms', ms = m :: ms' ∧ buffered.length < (enc m).length
 
 theorem reassembly_network2_aux {tbl : Table M} {dec : Decoder M} {enc : M → Bytes} (c : UInt16)
-    (ht : tbl c = some dec) (h : Good dec enc) :
-    ∀ (segs : List (UInt16 × Bytes)) (p : UInt16 → Option Bytes) (ms : List M),
+    (ht : tbl c = some dec) (h : Good D dec enc) :
+    ∀ (segs : List (UInt16 × Bytes)) (p : UInt16 → Option Bytes) (ms : List M), (∀ m ∈ ms, D m) →
       partialOf p c ++ bytesOn c segs = encAll enc ms → Drained enc (partialOf p c) ms →
       msgsOn c (readAll tbl p segs).1 = ms ∧ partialOf (readAll tbl p segs).2 c = [] := by
   intro segs
   induction segs with
   | nil =>
-    intro p ms heq hd
+    intro p ms _ heq hd
     have hp : partialOf p c = encAll enc ms := by simpa [bytesOn] using heq
     rcases hd with hd | ⟨m, ms', hd, hlt⟩
     · subst hd
@@ -300,20 +311,21 @@ theorem reassembly_network2_aux {tbl : Table M} {dec : Decoder M} {enc : M → B
       simp only [encAll, List.map_cons, List.flatten_cons, List.length_append] at this
       omega
   | cons seg segs ih =>
-    intro p ms heq hd
+    intro p ms hD heq hd
     by_cases hk : keyOf seg = c
     · have hb : bytesOn c (seg :: segs) = seg.2 ++ bytesOn c segs := by
         simp [bytesOn, List.filter_cons, hk]
       rw [hb, ← List.append_assoc] at heq
       obtain ⟨e1, e2⟩ := readFullMsgs_same tbl dec p seg c hk ht
       obtain ⟨ms1, ms2, hms, d1, d2, d3⟩ :=
-        drain_spec h ms (partialOf p c ++ seg.2) (bytesOn c segs)
+        drain_spec h ms hD (partialOf p c ++ seg.2) (bytesOn c segs)
           ((partialOf p c ++ seg.2).length + 1) heq (Nat.lt_succ_self _)
       have hdr : Drained enc (partialOf (readFullMsgs tbl p seg).2 c) ms2 := by
         rw [e2]; exact d3
       have hq : partialOf (readFullMsgs tbl p seg).2 c ++ bytesOn c segs = encAll enc ms2 := by
         rw [e2]; exact d2
-      obtain ⟨i1, i2⟩ := ih (readFullMsgs tbl p seg).2 ms2 hq hdr
+      have hD2 : ∀ m ∈ ms2, D m := fun x hx => hD x (by rw [hms]; exact List.mem_append_right _ hx)
+      obtain ⟨i1, i2⟩ := ih (readFullMsgs tbl p seg).2 ms2 hD2 hq hdr
       refine ⟨?_, by simpa [readAll] using i2⟩
       have hk' : seg.1 &&& ~~~PROTOCOL_SERVER = c := hk
       simp only [readAll, msgsOn_append, hk', msgsOn_tag_same, i1, e1, d1, hms]
@@ -322,7 +334,7 @@ theorem reassembly_network2_aux {tbl : Table M} {dec : Decoder M} {enc : M → B
       rw [hb] at heq
       have hsame : partialOf (readFullMsgs tbl p seg).2 c = partialOf p c := by
         unfold partialOf; rw [readFullMsgs_other tbl p seg c hk]
-      obtain ⟨i1, i2⟩ := ih (readFullMsgs tbl p seg).2 ms (by rw [hsame]; exact heq)
+      obtain ⟨i1, i2⟩ := ih (readFullMsgs tbl p seg).2 ms hD (by rw [hsame]; exact heq)
         (by rw [hsame]; exact hd)
       refine ⟨?_, by simpa [readAll] using i2⟩
       have hk' : seg.1 &&& ~~~PROTOCOL_SERVER ≠ c := hk
@@ -334,17 +346,17 @@ theorem reassembly_network2_aux {tbl : Table M} {dec : Decoder M} {enc : M → B
     from empty partial buffers the messages yielded on `c` are exactly `ms`, in order, and the
     partial buffer of `c` ends empty (no left-over bytes). -/
 theorem reassembly_network2 {tbl : Table M} {dec : Decoder M} {enc : M → Bytes} (c : UInt16)
-    (ht : tbl c = some dec) (h : Good dec enc) (segs : List (UInt16 × Bytes)) (ms : List M)
-    (hs : bytesOn c segs = encAll enc ms) :
+    (ht : tbl c = some dec) (h : Good D dec enc) (segs : List (UInt16 × Bytes)) (ms : List M)
+    (hD : ∀ m ∈ ms, D m) (hs : bytesOn c segs = encAll enc ms) :
     msgsOn c (readAll tbl (fun _ => none) segs).1 = ms ∧
       partialOf (readAll tbl (fun _ => none) segs).2 c = [] := by
-  apply reassembly_network2_aux c ht h segs (fun _ => none) ms
+  apply reassembly_network2_aux c ht h segs (fun _ => none) ms hD
   · simpa [partialOf] using hs
   · cases ms with
     | nil => exact Or.inl rfl
     | cons m ms' =>
       exact Or.inr ⟨m, ms', rfl, by
-        simpa [partialOf] using List.length_pos_iff.2 (h.nonempty m)⟩
+        simpa [partialOf] using List.length_pos_iff.2 (h.nonempty m (hD m (List.mem_cons_self ..)))⟩
 
 /-- an unsupported channel never yields a message and keeps no bytes -/
 theorem unsupported_channel (tbl : Table M) (p : UInt16 → Option Bytes) (seg : UInt16 × Bytes)
@@ -371,9 +383,9 @@ def lenDec : Decoder LenMsg := fun bs =>
         simp only [List.length_take]; omega⟩ (1 + n.toNat)
     else .eoi
 
-theorem good_lenCodec : Good lenDec lenEnc := by
+theorem good_lenCodec : Good (fun _ => True) lenDec lenEnc := by
   refine ⟨?_, ?_, ?_, rfl⟩
-  · intro m r
+  · intro m _ r
     obtain ⟨b, hb⟩ := m
     have hn : (UInt8.ofNat b.length).toNat = b.length := by simp; omega
     simp only [lenEnc, lenDec, List.cons_append, hn, List.length_append, List.length_cons]
@@ -382,7 +394,7 @@ theorem good_lenCodec : Good lenDec lenEnc := by
     congr 1
     · apply Subtype.ext; simp
     · omega
-  · intro m p hp hne
+  · intro m _ p hp hne
     obtain ⟨b, hb⟩ := m
     have hn : (UInt8.ofNat b.length).toNat = b.length := by simp; omega
     obtain ⟨t, ht⟩ := hp
@@ -405,33 +417,90 @@ theorem good_lenCodec : Good lenDec lenEnc := by
       simp only [lenDec, hn]
       have : ¬ b.length ≤ xs.length := by omega
       simp [this]
-  · intro m; simp [lenEnc]
+  · intro m _; simp [lenEnc]
 
 /-- the network1 theorem instantiated with a concrete codec (no hypothesis left) -/
 theorem reassembly_network1_lenCodec (msgs : List LenMsg) (splits : List Bytes)
     (hs : splits.flatten = encAll lenEnc msgs) :
     ∃ c, recvN lenDec msgs.length [] splits = some (msgs, [], c) ∧ c.flatten = [] :=
-  reassembly_network1 good_lenCodec msgs splits hs
+  reassembly_network1 good_lenCodec msgs (fun _ _ => trivial) splits hs
 
 /-! ## a real pallas codec: keep-alive (both stacks) -/
 
 /-- the keep-alive message codec (`array(2) u16(label) cookie` / `array(1) u16(2)`, decoded with
     minicbor's `array()` / `u16()`) satisfies `Good` -/
-theorem good_keepalive : Good kDec kEnc :=
-  ⟨Proofs.Keepalive.kRt, Proofs.Keepalive.kPfx, Proofs.Keepalive.kNonempty, rfl⟩
+theorem good_keepalive : Good (fun _ => True) kDec kEnc :=
+  ⟨fun m _ => Proofs.Keepalive.kRt m, fun m _ => Proofs.Keepalive.kPfx m,
+    fun m _ => Proofs.Keepalive.kNonempty m, rfl⟩
 
 /-- network1, keep-alive messages: no hypothesis left -/
 theorem reassembly_network1_keepalive (msgs : List KMsg) (splits : List Bytes)
     (hs : splits.flatten = encAll kEnc msgs) :
     ∃ c, recvN kDec msgs.length [] splits = some (msgs, [], c) ∧ c.flatten = [] :=
-  reassembly_network1 good_keepalive msgs splits hs
+  reassembly_network1 good_keepalive msgs (fun _ _ => trivial) splits hs
 
 /-- network2, keep-alive channel of any decoder table that maps it to the keep-alive decoder -/
 theorem reassembly_network2_keepalive (tbl : Table KMsg) (c : UInt16) (ht : tbl c = some kDec)
     (segs : List (UInt16 × Bytes)) (ms : List KMsg) (hs : bytesOn c segs = encAll kEnc ms) :
     msgsOn c (readAll tbl (fun _ => none) segs).1 = ms ∧
       partialOf (readAll tbl (fun _ => none) segs).2 c = [] :=
-  reassembly_network2 c ht good_keepalive segs ms hs
+  reassembly_network2 c ht good_keepalive segs ms (fun _ _ => trivial) hs
+
+/-! ## a second real codec: block-fetch (both stacks), the protocol whose messages span segments -/
+
+open Proofs.Codec in
+/-- the block-fetch codec (`array(n) u16(label) …` with `Point`s and a tag-24 byte string, decoded with
+    minicbor's `array()` / `u16()` / `u64()` / `tag()` / `bytes()`) satisfies `Good` on every message
+    whose slot numbers fit `u64` and whose byte strings are shorter than `2^64` -/
+theorem good_blockfetch : Good Proofs.Codec.WFMsg bfDec bfEnc := by
+  refine ⟨?_, ?_, ?_, rfl⟩
+  · intro m hm r
+    simp only [bfDec, (Proofs.Codec.parses_blockfetch m hm).1 r]
+  · intro m hm p hp hne
+    simp only [bfDec, (Proofs.Codec.parses_blockfetch m hm).2 p hp hne]
+  · intro m _
+    cases m <;> simp [bfEnc]
+
+/-- network1, block-fetch messages (a block body may be far longer than a segment) -/
+theorem reassembly_network1_blockfetch (msgs : List BFMsg) (hD : ∀ m ∈ msgs, Proofs.Codec.WFMsg m)
+    (splits : List Bytes) (hs : splits.flatten = encAll bfEnc msgs) :
+    ∃ c, recvN bfDec msgs.length [] splits = some (msgs, [], c) ∧ c.flatten = [] :=
+  reassembly_network1 good_blockfetch msgs hD splits hs
+
+/-- network2, block-fetch channel -/
+theorem reassembly_network2_blockfetch (tbl : Table BFMsg) (c : UInt16) (ht : tbl c = some bfDec)
+    (segs : List (UInt16 × Bytes)) (ms : List BFMsg) (hD : ∀ m ∈ ms, Proofs.Codec.WFMsg m)
+    (hs : bytesOn c segs = encAll bfEnc ms) :
+    msgsOn c (readAll tbl (fun _ => none) segs).1 = ms ∧
+      partialOf (readAll tbl (fun _ => none) segs).2 c = [] :=
+  reassembly_network2 c ht good_blockfetch segs ms hD hs
+
+/-! ## a third real codec: chain-sync with header content (node-to-node, both stacks) -/
+
+/-- the chain-sync codec (`HeaderContent` with its Byron prefix, `Tip`, `Point`, the point list of
+    `FindIntersect` decoded through `Vec<T>` / `ArrayIter`) satisfies `Good` on every message that
+    pallas can send and receive (`WFCS`: integers in `u8`/`u64`, lengths below `2^64`, Byron prefix
+    present exactly for variant 0) -/
+theorem good_chainsync : Good Proofs.Codec.WFCS csDec csEnc := by
+  refine ⟨?_, ?_, ?_, rfl⟩
+  · intro m hm r
+    simp only [csDec, (Proofs.Codec.parses_chainsync m hm).1 r]
+  · intro m hm p hp hne
+    simp only [csDec, (Proofs.Codec.parses_chainsync m hm).2 p hp hne]
+  · intro m _
+    cases m <;> simp [csEnc]
+
+theorem reassembly_network1_chainsync (msgs : List CSMsg) (hD : ∀ m ∈ msgs, Proofs.Codec.WFCS m)
+    (splits : List Bytes) (hs : splits.flatten = encAll csEnc msgs) :
+    ∃ c, recvN csDec msgs.length [] splits = some (msgs, [], c) ∧ c.flatten = [] :=
+  reassembly_network1 good_chainsync msgs hD splits hs
+
+theorem reassembly_network2_chainsync (tbl : Table CSMsg) (c : UInt16) (ht : tbl c = some csDec)
+    (segs : List (UInt16 × Bytes)) (ms : List CSMsg) (hD : ∀ m ∈ ms, Proofs.Codec.WFCS m)
+    (hs : bytesOn c segs = encAll csEnc ms) :
+    msgsOn c (readAll tbl (fun _ => none) segs).1 = ms ∧
+      partialOf (readAll tbl (fun _ => none) segs).2 c = [] :=
+  reassembly_network2 c ht good_chainsync segs ms hD hs
 
 /-! ## Non-vacuity -/
 def m1 : LenMsg := ⟨[1, 2, 3], by decide⟩
@@ -457,5 +526,24 @@ example : kEnc (.keepAlive 0x1234) = [0x82, 0x00, 0x19, 0x12, 0x34] ∧ kEnc (.r
     kEnc .done = [0x81, 0x02] := by decide
 example : kDec [0x82, 0x00, 0x19, 0x12] = .eoi ∧ kDec [0x82, 0x00, 0x1a, 0, 1, 0, 0] = .fail ∧
     kDec [0x82, 0x00, 0x1a, 0, 0, 0x12, 0x34, 0xff] = .ok (.keepAlive 0x1234) 7 := by decide
+
+example : bfEnc (.block [1, 2, 3]) = [0x82, 0x04, 0xd8, 0x18, 0x43, 1, 2, 3] := by decide
+example : bfEnc (.requestRange .origin (.specific 1000 [0xAA])) =
+    [0x83, 0x00, 0x80, 0x82, 0x19, 0x03, 0xe8, 0x41, 0xAA] := by decide
+example : bfDec [0x82, 0x04, 0xd8, 0x18, 0x43, 1, 2] = .eoi ∧
+    bfDec [0x82, 0x04, 0xd8, 0x18, 0x5f, 0x41, 1, 0xff] = .fail ∧
+    bfDec [0x82, 0x04, 0xc1, 0x41, 7, 9] = .ok (.block [7]) 5 := by decide
+/-- a block body longer than a segment is inside the domain -/
+example : Proofs.Codec.WFMsg (.block (List.replicate 70000 0)) := by
+  show (List.replicate 70000 (0 : UInt8)).length < 18446744073709551616
+  rw [List.length_replicate]; decide
+
+example : csEnc (.rollForward ⟨6, none, [0x80]⟩ ⟨.origin, 5⟩) =
+    [0x83, 0x02, 0x82, 0x06, 0xd8, 0x18, 0x41, 0x80, 0x82, 0x80, 0x05] := by decide
+example : csDec [0x82, 0x04, 0x9f, 0x80, 0x80, 0xff, 0x00] = .ok (.findIntersect [.origin, .origin]) 6 ∧
+    csDec [0x82, 0x04, 0x9f, 0x80] = .eoi ∧ csDec [0x82, 0x04, 0x82, 0x80] = .eoi := by decide
+example : Proofs.Codec.WFCS (.rollForward ⟨0, some (1, 2), [1, 2, 3]⟩ ⟨.specific 7 [9], 1⟩) := by
+  refine ⟨⟨by decide, by decide, fun _ => ⟨1, 2, rfl, by decide, by decide⟩, fun h => absurd rfl h⟩,
+    ⟨⟨by decide, by decide⟩, by decide⟩⟩
 
 end PallasVerif.Props.C21
